@@ -83,6 +83,7 @@ fn main() {
         }
     }
 
+    vbase::crash::install(&id, &config_name(), &verif_dir, seed);
     let mut ctx = Ctx::new(&id, tier, seed, &config_name(), &verif_dir, still_known);
     ctx.strict = false;
     if let Some(s) = only_sub {
@@ -168,6 +169,7 @@ fn replay_file(path: &str, verif_dir: &str) -> Option<Result<(), engine::Fail>> 
     let text = std::fs::read_to_string(path).ok()?;
     let j: serde_json::Value = serde_json::from_str(&text).ok()?;
     let id = j["property"].as_str()?.to_string();
+    vbase::crash::install(&id, &config_name(), verif_dir, 0);
     let subname = j["sub"].as_str()?.to_string();
     let case = if let Some(h) = j["case_hex"].as_str() { engine::unhex(h) } else { j["case_text"].as_str()?.as_bytes().to_vec() };
     let props = checks::all();
